@@ -243,18 +243,18 @@ def r_meta0(ctx):
             moff = ("f", H, "json_metadata_offset")
             comp = ("f", H, "internal_compression")
             dec = None
-            for d in p.decisions():
-                c = unmut(d.d["cond"])
-                if d.d["how"] == "if" and isinstance(c, tuple) and c[0] == "bin" and c[1] == "==" and {c[2], c[3]} == {mlen, C(0)}:
-                    dec = d
-                    break
+            zero = None
+            dz, dn = knows(p, ("eq", mlen, 0)), knows(p, ("ne", mlen, 0))
+            if dz is not None:
+                dec, zero = dz, True
+            elif dn is not None:
+                dec, zero = dn, False
             val = unmut(p.value)
             st = val[2][0] if is_call_to(val, lambda x: x == "core::result::Result::Ok") and val[2] else None
             md = struct_field(st, "meta_data") if st is not None else None
             if dec is None:
                 obs.append(Ob("R-META0", fn, "length test", False, "success path without a `json_metadata_length == 0` decision", rel(f["loc"])))
                 continue
-            zero = dec.d["outcome"] is True
             seen[zero] += 1
             dir_calls = [e for e in p.events if e.kind == "call" and "read_directories" in e.d["fn"]]
             upto = dir_calls[0].seq if dir_calls else len(p.events)
@@ -391,8 +391,12 @@ def r_walk(ctx):
                     n_ins += 1
                     _, key, val = [unmut(x) for x in e.d["args"]]
                     ent = None
-                    if isinstance(key, tuple) and key[0] == "elem" and is_call_to(key[1], lambda s: s.endswith("::tile_id_range")):
-                        ent = key[1][2][0]
+                    src = key[1] if isinstance(key, tuple) and key[0] == "elem" else None
+                    # `range.filter(..)` yields a subset of the range in order
+                    while is_call_to(src, lambda s: s.endswith("::filter")) and src[2]:
+                        src = src[2][0]
+                    if is_call_to(src, lambda s: s.endswith("::tile_id_range")):
+                        ent = src[2][0]
                     ok_val = ent is not None and isinstance(val, tuple) and val[0] == "struct" and struct_field(val, "offset") == ("f", ent, "offset") and struct_field(val, "length") == ("f", ent, "length")
                     ok_ent = ent is not None and D is not None and ent[0] == "elem" and ent[1] == D
                     obs.append(Ob("R-WALK", fn, "insert: key ranges over tile_id_range() of the entry whose offset/length are stored", ok_val and ok_ent,
@@ -472,12 +476,29 @@ def r_find(ctx):
             v = unmut(p.value)
             for t in subterms(v):
                 if isinstance(t, tuple) and t[0] == "clos" and t[2]:
-                    body = t[2][0]
-                    conj = _conjuncts(body)
-                    has_leaf = any(_is_neg_leaf(c) for c in conj)
-                    has_contains = any(_is_contains(c, V("param:tile_id")) for c in conj)
-                    ok = has_leaf and has_contains and len(conj) == 2
-                    why = "predicate = %s" % tstr(body)[:160]
+                    # every way the predicate can answer `true` must have established both facts (as conjuncts of the returned
+                    # expression or as decisions on the way, e.g. an early `return false` for leaf entries)
+                    cps = getattr(fa, "clos_paths", {}).get(t[1]) or [(b, []) for b in t[2]]
+                    n_true = 0
+                    ok = True
+                    descr = []
+                    for (body, decs) in cps:
+                        body = unmut(body)
+                        if body == ("lit", "bool", False):
+                            continue
+                        n_true += 1
+                        conj = _conjuncts(body) if body != ("lit", "bool", True) else []
+                        facts = []
+                        for d in decs:
+                            facts += decision_facts(d)
+                        has_leaf = any(_is_neg_leaf(c) for c in conj) or any(f[0] == "bool" and is_call_to(f[1], lambda s: s.endswith("::is_leaf_dir_entry")) and f[2] is False for f in facts) \
+                            or any(f[0] == "ne" and f[1][0] == "f" and f[1][2] == "run_length" and f[2] == 0 for f in facts)
+                        has_contains = any(_is_contains(c, V("param:tile_id")) for c in conj) or any(f[0] == "bool" and _is_contains(f[1], V("param:tile_id")) and f[2] is True for f in facts)
+                        extra = [c for c in conj if not _is_neg_leaf(c) and not _is_contains(c, V("param:tile_id"))]
+                        ok = ok and has_leaf and has_contains and not extra
+                        descr.append(tstr(body)[:80])
+                    ok = ok and n_true >= 1
+                    why = "predicate answers true via: %s" % "; ".join(descr)
             if is_call_to(v, lambda s: s.endswith("::find")) is False:
                 ok = False
                 why = "lookup is not an iterator `find` over the entries: %s" % tstr(v)[:100]
